@@ -17,11 +17,11 @@ func init() {
 	mc.Register(&mc.Property{
 		ID:    "C07",
 		Title: "FIFO pairing; kept stays with the earliest sources",
-		Rule: "(i) interpreter.Reconcile called directly on all sender lists (length <= Ls, names {a,b}, amounts 1..A) x all receiver lists (length <= Lr, names {x,y,<kept>}, amounts 1..A) whose sums are equal; " +
+		Rule: "(i) interpreter.Reconcile called directly on all sender lists (length <= Ls, names {a,b}, amounts 1..A) x all receiver lists (length <= Lr, names {x,y,<kept>,a}, amounts 1..A) whose sums are equal; " +
 			"(ii) all single-send scripts with 2-3 sources x 2-3 destination shares with kept in every position x all balances; oracle: source x destination flow matrix == in-order pairing of the draw list with the distribution list, kept units withheld from the senders next in line; " +
 			"non-trivial = at least one share is split across two postings or a kept share is present; distinct = the two lists / script text + inputs",
 		Assumptions: []string{"no posting order is demanded beyond what the flow matrix implies", "Reconcile is given fresh slices and fresh big.Ints on every call (it reverses its arguments in place)"},
-		QuickBudget: 70 * time.Second,
+		QuickBudget: 100 * time.Second,
 		ThoroBudget: 12 * time.Minute,
 		Run:         runC07,
 	})
@@ -58,7 +58,7 @@ func runC07(w *mc.Worker) {
 		b = rb{4, 4, 5}
 	}
 	name := fmt.Sprintf("reconcile-S%d-R%d-A%d", b.ls, b.lr, b.a)
-	w.Stage(name, fmt.Sprintf("sender lists of length <= %d over {a,b} x receiver lists of length <= %d over {x,y,<kept>}, amounts 1..%d, equal sums", b.ls, b.lr, b.a), func() {
+	w.Stage(name, fmt.Sprintf("sender lists of length <= %d over {a,b} x receiver lists of length <= %d over {x,y,<kept>,a} (a is also a sender: an account may pay itself), amounts 1..%d, equal sums", b.ls, b.lr, b.a), func() {
 		w.Outer(name+"/lists", 0, func(o *mc.Explorer) {
 			snd := genUnits(o, b.ls, []string{"a", "b"}, b.a)
 			key := unitsStr(snd)
@@ -67,7 +67,7 @@ func runC07(w *mc.Worker) {
 			}
 			w.Owned()
 			w.Inner(0, func(in *mc.Explorer) {
-				rcv := genUnits(in, b.lr, []string{"x", "y", interpreter.KEPT_ADDR}, b.a)
+				rcv := genUnits(in, b.lr, []string{"x", "y", interpreter.KEPT_ADDR, "a"}, b.a)
 				var ss, rs int64
 				for _, u := range snd {
 					ss += u.amt
@@ -171,7 +171,7 @@ func runC07(w *mc.Worker) {
 		Vecs:       []PortVec{{[]string{"1/2", "1/2"}, 0}, {[]string{"1/3", "remaining"}, 0}},
 		ListLens:   cat(ws(0, "2"), ws(1, "3")),
 		WOverdraft: 1, WUnbounded: -1, WVar: -1, WInorder: 0, WCapped: 1, WAllot: 1}
-	dst := &DstCfg{Asset: "USD", Accts: ws(0, "x", "y"),
+	dst := &DstCfg{Asset: "USD", Accts: ws(0, "x", "y", "a"),
 		Caps:     ws(0, "2", "1", "3"),
 		Vecs:     []PortVec{{[]string{"1/2", "1/2"}, 0}, {[]string{"1/3", "remaining"}, 0}, {[]string{"1/3", "1/3", "1/3"}, 1}},
 		NClauses: cat(ws(0, "1"), ws(1, "2")),
